@@ -148,6 +148,7 @@ class Module:
         self._funcs: T.Dict[str, FuncNode] = {}
         self._classes: T.Dict[str, ast.ClassDef] = {}
         self._parents: T.Optional[T.Dict[ast.AST, ast.AST]] = None
+        self._imports: T.Optional[T.Dict[str, str]] = None
         self._index(self.tree, '')
 
     def _index(self, node: ast.AST, prefix: str) -> None:
@@ -264,7 +265,10 @@ class Module:
         return f'{self.rel}:{ln}'
 
     def imports(self) -> T.Dict[str, str]:
-        """local name -> dotted origin ('mesonlib' -> 'mesonbuild.mesonlib', 'OptionKey' -> 'mesonbuild.options.OptionKey')."""
+        """local name -> dotted origin ('mesonlib' -> 'mesonbuild.mesonlib', 'OptionKey' -> 'mesonbuild.options.OptionKey').
+        `from x import *` is recorded under the key '*:<n>' -> 'x' (see star_modules())."""
+        if self._imports is not None:
+            return self._imports
         out: T.Dict[str, str] = {}
         pkg = self.rel[:-3].replace('/', '.').split('.')
         if pkg[-1] == '__init__':
@@ -283,8 +287,15 @@ class Module:
                 else:
                     mod = st.module or ''
                 for a in st.names:
-                    out[a.asname or a.name] = f'{mod}.{a.name}'
+                    if a.name == '*':
+                        out[f'*:{len(out)}'] = mod
+                    else:
+                        out[a.asname or a.name] = f'{mod}.{a.name}'
+        self._imports = out
         return out
+
+    def star_modules(self) -> T.List[str]:
+        return [v for k, v in self.imports().items() if k.startswith('*:')]
 
 
 def _flatten_toplevel(body: T.List[ast.stmt]) -> T.Iterator[ast.stmt]:
@@ -302,6 +313,8 @@ class Repo:
         self.root = root
         self.overlay = dict(overlay or {})
         self._mods: T.Dict[str, Module] = {}
+        self._rc_cache: T.Dict[T.Tuple[str, str], T.Optional[T.Tuple[Module, ast.ClassDef]]] = {}
+        self._mro_cache: T.Dict[T.Tuple[str, int], T.List[T.Tuple[Module, ast.ClassDef]]] = {}
         self.consulted: T.Dict[str, str] = {}
 
     def exists(self, rel: str) -> bool:
@@ -349,7 +362,14 @@ class Repo:
 
     # -- class hierarchy across modules --------------------------------
     def resolve_class(self, mod: Module, name: str) -> T.Optional[T.Tuple[Module, ast.ClassDef]]:
-        """Resolve a (possibly imported / dotted) class name used in `mod`."""
+        """Resolve a (possibly imported / dotted) class name used in `mod` (cached)."""
+        key = (mod.rel, name)
+        if key not in self._rc_cache:
+            self._rc_cache[key] = None
+            self._rc_cache[key] = self._resolve_class(mod, name, 0)
+        return self._rc_cache[key]
+
+    def _resolve_class(self, mod: Module, name: str, depth: int) -> T.Optional[T.Tuple[Module, ast.ClassDef]]:
         seen = 0
         while seen < 8:
             seen += 1
@@ -358,6 +378,14 @@ class Repo:
             imps = mod.imports()
             head, _, tail = name.partition('.')
             if head not in imps:
+                # `from x import *` re-exports (mesonlib -> utils.universal)
+                if depth < 4:
+                    for star in mod.star_modules():
+                        m2 = self.module_by_dotted(star)
+                        if m2 is not None and m2 is not mod:
+                            r = self._resolve_class(m2, name, depth + 1)
+                            if r is not None:
+                                return r
                 return None
             origin = imps[head] + ('.' + tail if tail else '')
             # origin is module.path.Class or module.path (then tail is Class...)
@@ -377,6 +405,9 @@ class Repo:
     def mro(self, mod: Module, cls: ast.ClassDef) -> T.List[T.Tuple[Module, ast.ClassDef]]:
         """Linearisation (DFS, left to right, de-duplicated keeping last = good
         enough for single-inheritance-with-mixins as meson uses it)."""
+        ck = (mod.rel, id(cls))
+        if ck in self._mro_cache:
+            return list(self._mro_cache[ck])
         out: T.List[T.Tuple[Module, ast.ClassDef]] = []
 
         def rec(m: Module, c: ast.ClassDef, depth: int) -> None:
@@ -393,6 +424,7 @@ class Repo:
                 if r is not None:
                     rec(r[0], r[1], depth + 1)
         rec(mod, cls, 0)
+        self._mro_cache[ck] = list(out)
         return out
 
     def find_method(self, mod: Module, cls: ast.ClassDef, name: str) -> T.Optional[T.Tuple[Module, ast.ClassDef, FuncNode]]:
